@@ -21,7 +21,7 @@
 From Coq Require Import ZArith List Bool.
 From Pymoto Require Import Base.Cmp.
 Import ListNotations.
-Open Scope Z_scope.
+Local Open Scope Z_scope.
 
 Definition C := (Z * Z)%type.
 Definition c0 : C := (0, 0).
@@ -128,7 +128,7 @@ Definition assign (r : nat) (tix : list nat) (isscal : bool) (shp : list Z) (x :
       bind (mread r' ix') (fun d => bind (mcplx r') (fun cx => bind (mcplx r) (fun tcx =>
       match shp' with
       | [] => if cx && negb tcx then fail EOther else mwrite r tix (repeat (hd c0 d) (length tix))
-      | _ => if isscal then fail EValueError
+      | _ => if isscal then fail EOther       (* ValueError or TypeError depending on dtype: not modelled *)
              else if negb (Zl_eqb shp' shp) then fail EValueError
              else if cx && negb tcx then fail EOther
              else mwrite r tix d
@@ -215,19 +215,16 @@ Definition iadd (t x : val) : M val :=
 Definition get_root (i : nat) : M rootsig := fun w => (w, Ok (nth i (roots w) root0)).
 Definition put_root (i : nat) (rs : rootsig) : M unit := fun w => (set_roots w (upd (roots w) i rs), Ok tt).
 
-(* SignalSlice.state / Signal.state (getter) *)
-Fixpoint get_st (i : nat) (p : list slc) : M val :=
+(* the two property getters are the same code on different fields:
+     SignalSlice.state:        None if self.base.state is None else self.base.state[self.slice]
+     SignalSlice.sensitivity:  None if self.base.sensitivity is None else self.base.sensitivity[self.slice] *)
+Fixpoint get_fld (f : rootsig -> val) (i : nat) (p : list slc) : M val :=
   match p with
-  | [] => bind (get_root i) (fun rs => ret (r_st rs))
-  | s :: p' => bind (get_st i p') (fun b => match b with VNone => ret VNone | _ => getitem b s end)
+  | [] => bind (get_root i) (fun rs => ret (f rs))
+  | s :: p' => bind (get_fld f i p') (fun b => match b with VNone => ret VNone | _ => getitem b s end)
   end.
-
-(* .sensitivity (getter) *)
-Fixpoint get_se (i : nat) (p : list slc) : M val :=
-  match p with
-  | [] => bind (get_root i) (fun rs => ret (r_se rs))
-  | s :: p' => bind (get_se i p') (fun b => match b with VNone => ret VNone | _ => getitem b s end)
-  end.
+Definition get_st := get_fld r_st.
+Definition get_se := get_fld r_se.
 
 (* .state = x *)
 Definition set_st (i : nat) (p : list slc) (x : val) : M unit :=
